@@ -33,7 +33,7 @@ static std::string answer(sb_trajectory_t* tr, const std::string& q)
         float prop = sb_trajectory_propose_takeoff_time_sec(tr, h, v, acc);
         sb_trajectory_stats_calculator_t calc;
         sb_trajectory_stats_t st;
-        memset(&st, 0, sizeof(st));
+        memset(&st, SBH_FILL, sizeof(st));
         sb_trajectory_stats_calculator_init(&calc, 1.0f);
         calc.min_ascent = h;
         calc.takeoff_speed = v;
@@ -49,7 +49,7 @@ static std::string answer(sb_trajectory_t* tr, const std::string& q)
         float prop = sb_trajectory_propose_landing_time_sec(tr, pd, thr);
         sb_trajectory_stats_calculator_t calc;
         sb_trajectory_stats_t st;
-        memset(&st, 0, sizeof(st));
+        memset(&st, SBH_FILL, sizeof(st));
         sb_trajectory_stats_calculator_init(&calc, 1.0f);
         calc.preferred_descent = pd;
         calc.verticality_threshold = thr;
@@ -59,7 +59,7 @@ static std::string answer(sb_trajectory_t* tr, const std::string& q)
             + fbits(sb_trajectory_get_total_duration_sec(tr));
     } else if (k == 'B') {
         sb_bounding_box_t box;
-        memset(&box, 0, sizeof(box));
+        memset(&box, SBH_FILL, sizeof(box));
         sb_error_t rc = sb_trajectory_get_axis_aligned_bounding_box(tr, &box);
         sb_error_t rc2 = sb_trajectory_get_axis_aligned_bounding_box(tr, nullptr);
         return std::to_string((int)rc) + "," + fbits(box.x.min) + "," + fbits(box.x.max) + "," + fbits(box.y.min) + "," + fbits(box.y.max) + ","
@@ -74,8 +74,8 @@ SB_OP(stats)
 {
     auto v = unhex(t[2]);
     sb_trajectory_t ta, tb;
-    memset(&ta, 0, sizeof(ta));
-    memset(&tb, 0, sizeof(tb));
+    memset(&ta, SBH_FILL, sizeof(ta));
+    memset(&tb, SBH_FILL, sizeof(tb));
     int fd = make_fd(v);
     sb_error_t rca = sb_trajectory_init_from_binary_file(&ta, fd);
     close(fd);
@@ -115,7 +115,7 @@ SB_OP(statsseq)
             continue;
         memcpy(buf.p, files[i].data(), buf.n);
         sb_trajectory_t tm;
-        memset(&tm, 0, sizeof(tm));
+        memset(&tm, SBH_FILL, sizeof(tm));
         sb_error_t rcm = sb_trajectory_init_from_binary_file_in_memory(&tm, buf.p, buf.n);
         rcms[i] = (int)rcm;
         if (rcm == SB_SUCCESS) {
@@ -127,7 +127,7 @@ SB_OP(statsseq)
         if (files[i].size() != buf.n)
             continue;
         sb_trajectory_t tf;
-        memset(&tf, 0, sizeof(tf));
+        memset(&tf, SBH_FILL, sizeof(tf));
         int fd = make_fd(files[i]);
         sb_error_t rcf = sb_trajectory_init_from_binary_file(&tf, fd);
         close(fd);
